@@ -183,11 +183,23 @@ fn body_placements(ch: &Ch) -> Run {
   } else {
     edge
   };
+  // the same module may import the same specifier text a second time as an
+  // asset (bytes / text): the evaluating import still makes it a module, and
+  // a failure behind it is as reachable as without the twin
+  let twin = ["none", "bytes-import-before", "text-import-after"][ch.shape("asset_import_of_the_same_specifier_in_the_same_module", 3)];
+  let twin = if matches!(edge_eff, "static-code" | "dynamic-code") && attr.is_empty() && !policy { twin } else { "none" };
+  let (twin_before, twin_after) = match (twin, edge_eff) {
+    ("bytes-import-before", "static-code") => (format!("import tb from \"{text}\" with {{ type: \"bytes\" }};\n"), String::new()),
+    ("bytes-import-before", _) => (format!("const tb = await import(\"{text}\", {{ with: {{ type: \"bytes\" }} }});\n"), String::new()),
+    ("text-import-after", "static-code") => (String::new(), format!("import tt from \"{text}\" with {{ type: \"text\" }};\n")),
+    ("text-import-after", _) => (String::new(), format!("const tt = await import(\"{text}\", {{ with: {{ type: \"text\" }} }});\n")),
+    _ => (String::new(), String::new()),
+  };
   match edge_eff {
-    "static-code" => loader.add_text(&format!("{base}root.ts"), &format!("{sib}import * as t from \"{text}\"{attr};\n")),
+    "static-code" => loader.add_text(&format!("{base}root.ts"), &format!("{sib}{twin_before}import * as t from \"{text}\"{attr};\n{twin_after}")),
     "dynamic-code" => {
       let dattr = if attr.is_empty() { "" } else { ", { with: { type: \"json\" } }" };
-      loader.add_text(&format!("{base}root.ts"), &format!("{sib}const t = await import(\"{text}\"{dattr});\n"))
+      loader.add_text(&format!("{base}root.ts"), &format!("{sib}{twin_before}const t = await import(\"{text}\"{dattr});\n{twin_after}"))
     }
     "type-only" => loader.add_text(&format!("{base}root.ts"), &format!("{sib}import type {{ T }} from \"{text}\";\n")),
     "types-dependency" => {
@@ -209,7 +221,7 @@ fn body_placements(ch: &Ch) -> Run {
     }
     _ => unreachable!(),
   }
-  let desc = json!({"failure": failure, "edge": edge_eff, "redirect_hops": hops, "healthy_sibling": sibling, "base": base,
+  let desc = json!({"failure": failure, "edge": edge_eff, "asset_import_of_the_same_specifier_in_the_same_module": twin, "redirect_hops": hops, "healthy_sibling": sibling, "base": base,
     "files": loader.files.borrow().iter().map(|(k, v)| (k.to_string(), match v { Entry::Module { content, .. } => json!(String::from_utf8_lossy(content)), other => json!(format!("{other:?}")) })).collect::<serde_json::Map<_, _>>(),
     "roots": roots.iter().map(|r| r.as_str()).collect::<Vec<_>>(), "configured_imports": imports.iter().map(|i| i.imports.clone()).collect::<Vec<_>>() });
   let mut g = ModuleGraph::new(GraphKind::All);
@@ -219,6 +231,8 @@ fn body_placements(ch: &Ch) -> Run {
     &loader,
     BuildCfg {
       imports,
+      unstable_bytes: twin != "none",
+      unstable_text: twin != "none",
       ..Default::default()
     },
     ch,
@@ -304,7 +318,7 @@ fn body_placements(ch: &Ch) -> Run {
       json!({"scenario": desc}),
     );
   }
-  run.state_key = hash_json(&json!([failure, edge_eff, hops, sibling, remote]));
+  run.state_key = hash_json(&json!([failure, edge_eff, hops, sibling, remote, twin]));
   run.nontrivial = failure != "none";
   run.outcome_key = hash_of(&(verdicts, valid_ok));
   if ch.describe() {
